@@ -38,7 +38,7 @@ fn check_cap(cap: usize, size: usize) -> Result<(), String> {
 fn check_layout(size: usize, align: usize, k: u32) -> Result<(), String> {
     // the call below can abort the process (std's unsafe-precondition check on an invalid
     // layout): leave a breadcrumb so that the supervisor can re-execute exactly this input
-    crate::crumbs::set_replay(&format!("{{\"layout\":[{size},{align},{k}]}}"));
+    crate::crumbs::set_replay_unwatched(&format!("{{\"layout\":[{size},{align},{k}]}}"));
     let w = hv::GROUP_WIDTH;
     let ca = align.max(w);
     let buckets = 1usize << k;
@@ -314,7 +314,7 @@ impl Config for Arith {
     fn run(&self) -> ConfigReport {
         let t0 = std::time::Instant::now();
         crate::crumbs::set_config(&self.label());
-        crate::crumbs::set_replay("{\"arithmetic\":true}");
+        crate::crumbs::set_replay_unwatched("{\"arithmetic\":true}");
         let mut rep = ConfigReport { label: self.label(), mode: "enum".into(), exhaustive: true, ..Default::default() };
         match crate::env::catch(|| self.run_all()) {
             Ok(Ok(d)) => {
